@@ -45,6 +45,7 @@ pub enum Tx {
     PoolRedeem,
     Stake,
     Unstake,
+    Claim,
     NextRound,
     CreateToken,
     ProofDrop,
@@ -72,6 +73,7 @@ pub const STD_MENU: &[Tx] = &[
     Tx::PoolRedeem,
     Tx::Stake,
     Tx::Unstake,
+    Tx::Claim,
     Tx::NextRound,
     Tx::CreateToken,
     Tx::ProofDrop,
@@ -179,6 +181,14 @@ pub fn build_tx<E: NativeVmExtension>(sim: &mut Sim<E>, w: &World, x: &Extras, t
             mb().withdraw_from_account(a, x.stake_unit, dec!(5))
                 .take_all_from_worktop(x.stake_unit, "u")
                 .unstake_validator(x.validator, "u")
+                .try_deposit_entire_worktop_or_abort(a, None)
+                .build(),
+            sa,
+        ),
+        Tx::Claim => Built::Manifest(
+            mb().withdraw_from_account(a, x.claim_nft, dec!(1))
+                .take_all_from_worktop(x.claim_nft, "n")
+                .claim_xrd(x.validator, "n")
                 .try_deposit_entire_worktop_or_abort(a, None)
                 .build(),
             sa,
